@@ -158,6 +158,25 @@ def div_chain(e):
     return e, divs
 
 
+def _to_lexpr(e):
+    """lib_effect value -> the lib_expr shape the clauses below compare with (p/len/bin/c/cast)."""
+    from . import lib_effect as E
+    e = E.strip_casts(e)
+    if not isinstance(e, tuple) or not e:
+        return e
+    if e[0] == "ovf":
+        return _to_lexpr(e[1])
+    if e[0] == "p":
+        return ("p", e[1], tuple(e[2]))
+    if e[0] == "len":
+        return ("len", _to_lexpr(e[1]))
+    if e[0] == "bin":
+        return ("bin", e[1], _to_lexpr(e[2]), _to_lexpr(e[3]))
+    if e[0] == "c":
+        return ("c", e[1], e[2])
+    return e
+
+
 def context_siblings(facts):
     rr = RuleResult("SIBLING/context-fill", "Context::fill_interleaved and fill_le_bytes update the same state the same "
                     "way and hash the little-endian bytes of the byte-rounded width")
@@ -167,10 +186,41 @@ def context_siblings(facts):
     empties = {}
     for body, kind in ((fi, "ints"), (fb, "bytes")):
         c = ExprCtx(body)
-        stores = field_stores(body)
-        fields = sorted(set(s[2] for s in stores))
-        check(rr, fields == [(".frame_count",), (".sample_count",)], rr.rule, body, "writes={sample_count,frame_count}",
-              "%s writes the fields %s (expected exactly sample_count and frame_count)" % (body.id, fields))
+        # field updates are read off the effect interpreter (private `&mut self` helpers inlined, early return or if/else)
+        from . import lib_effect as E
+        from .c11 import _leaves
+        ectx = E.Ctx(body.facts if hasattr(body, "facts") else facts)
+        ectx.track_fields = True
+        ectx.open_loops = True
+        itp = E.Interp(ectx, body)
+        try:
+            itp.run()
+            fvals = {k[1]: v for k, v in itp.fields.items() if k[0] == "arg1"}
+        except E.Undecided as e:
+            fvals = None
+            check(rr, False, rr.rule, body, "undecided", "cannot summarise %s: %s" % (body.id, e))
+        stores = []
+        guarded_by_empty = None
+        if fvals is not None:
+            fields = sorted(fvals)
+            check(rr, fields == [(".frame_count",), (".sample_count",)], rr.rule, body, "writes={sample_count,frame_count}",
+                  "%s writes the fields %s (expected exactly sample_count and frame_count)" % (body.id, fields))
+            guarded_by_empty = True
+            for f, v in sorted(fvals.items()):
+                changed = []
+                unchanged_on_empty = False
+                for conds, leaf in _leaves(v):
+                    old = ("p", 1, f)
+                    emp = [lab for cnd, lab in conds if "is_empty(arg2)" in E.canon(cnd) or E.canon(cnd) in ("(0 Eq len(arg2))", "(len(arg2) Eq 0)")]
+                    if E.strip_casts(leaf) == old:
+                        if emp:
+                            unchanged_on_empty = True
+                        continue
+                    changed.append(leaf)
+                if not unchanged_on_empty:
+                    guarded_by_empty = False
+                for leaf in changed:
+                    stores.append((0, 0, f, _to_lexpr(E.strip_casts(leaf))))
         ups = [(bi, t) for bi, t in calls_named(body, "update")]
         if check(rr, len(ups) == 1, rr.rule, body, "one-md5-update", "%d digest update calls" % len(ups)):
             ubi, ut = ups[0]
@@ -211,13 +261,8 @@ def context_siblings(facts):
                         any(d in (P(3), P(1, ".bytes_per_sample")) for d in divs if d != P(1, ".channels"))
                 check(rr, ok, rr.rule, body, "sample_count+=len/channels" + ("/bytes_per_sample" if kind == "bytes" else ""),
                       "sample_count is set to %s" % show(e), {"sample_count": show(e)})
-        # empty-block handling
-        em = [(bi, t) for bi, t in calls_named(body, "is_empty") if c.expr(t["args"][0]) == P(2)]
-        guarded = False
-        if em:
-            ebi = em[0][0]
-            guarded = all(body.dominates(ebi, s[0]) for s in stores) and bool(stores)
-        empties[kind] = guarded
+        # empty-block handling: on an empty argument both fields keep their values
+        empties[kind] = bool(guarded_by_empty) and bool(stores)
     check(rr, empties.get("ints") == empties.get("bytes"), rr.rule, fi, "same-empty-block-handling",
           "fill_interleaved %s empty blocks but fill_le_bytes %s them: frame numbering differs between the delivery "
           "paths" % ("skips" if empties.get("ints") else "counts", "skips" if empties.get("bytes") else "counts"))
@@ -378,6 +423,13 @@ def eq_dispatch(body, param):
         if t["k"] != "switch":
             continue
         e = c.expr(t["d"])
+        if e == P(param):
+            # `match param { 1 => f1(..), 2 => f2(..), .. }`
+            for v, tgt in t["vals"]:
+                call = _first_local_call(body, tgt)
+                if call and isinstance(v, int):
+                    tab[v] = call
+            continue
         if not (isinstance(e, tuple) and e[0] == "bin" and e[1] == "Eq"):
             continue
         a, b_ = e[2], e[3]
@@ -390,26 +442,29 @@ def eq_dispatch(body, param):
         true_t = t["else"] if false_t else None
         if true_t is None:
             continue
-        # first call reachable on the true edge before any further branching
-        cur = true_t
-        seen = set()
-        call = None
-        while cur not in seen:
-            seen.add(cur)
-            tt = body.term(cur)
-            if tt["k"] == "call" and (tt.get("fn") or {}).get("local"):
-                call = (tt, cur)
-                break
-            if tt["k"] == "goto":
-                cur = tt["t"]
-                continue
-            if tt["k"] == "call" and "t" in tt:
-                cur = tt["t"]
-                continue
-            break
+        call = _first_local_call(body, true_t)
         if call:
             tab[k] = call
     return tab
+
+
+def _first_local_call(body, start):
+    """first call of a crate function reachable from `start` before any further branching"""
+    cur = start
+    seen = set()
+    while cur not in seen:
+        seen.add(cur)
+        tt = body.term(cur)
+        if tt["k"] == "call" and (tt.get("fn") or {}).get("local"):
+            return (tt, cur)
+        if tt["k"] == "goto":
+            cur = tt["t"]
+            continue
+        if tt["k"] == "call" and "t" in tt:
+            cur = tt["t"]
+            continue
+        break
+    return None
 
 
 def width_tables(facts):
